@@ -17,6 +17,7 @@ from tokenize import detect_encoding
 from types import CodeType, ModuleType
 from typing import TYPE_CHECKING, Callable, Dict, Generator, List, Optional, Tuple
 
+from pyccolo.ast_bookkeeping import AstBookkeeper
 from pyccolo.emit_event import _TRACER_STACK
 from pyccolo.extra_builtins import GUARD_PREFIX
 from pyccolo.trace_events import TraceEvent
@@ -293,9 +294,18 @@ class TraceLoader(SourceFileLoader):
         # like the bytecode, the table is only a cache: one that is missing or cannot be read is no table
         try:
             with open(pickle_path, "rb") as f:
-                return pickle.load(f)
+                table = pickle.load(f)
         except Exception:
             return None
+        # (bookkeeper, {augmentation spec: ids of the nodes written with it})
+        if (
+            isinstance(table, tuple)
+            and len(table) == 2
+            and isinstance(table[0], AstBookkeeper)
+            and isinstance(table[1], dict)
+        ):
+            return table
+        return None
 
     def get_augmented_source(self, source_path) -> str:
         source_bytes = super().get_data(source_path)
@@ -417,7 +427,17 @@ class TraceLoader(SourceFileLoader):
                         tracer.remove_bookkeeping(
                             old_bookkeeping, old_bookkeeping.module_id
                         )
-                    new_bookkeeping, remapping = table.remap(id(module))
+                    new_bookkeeping, remapping = table[0].remap(id(module))
+                    for spec, node_ids in table[1].items():
+                        # which nodes were written with a syntax augmentation is part of what handlers
+                        # ask about the nodes (get_augmentations)
+                        for tracer_for_spec in tracers:
+                            if spec in tracer_for_spec.syntax_augmentation_specs:
+                                tracer_for_spec.augmented_node_ids_by_spec[spec].update(
+                                    remapping[node_id]
+                                    for node_id in node_ids
+                                    if node_id in remapping
+                                )
                     tracer.add_bookkeeping(new_bookkeeping, id(module))
                     # recorded like a bookkeeper made by the rewriter, so that the next instrumentation or
                     # cached load of the path finds (and removes) it
@@ -436,8 +456,16 @@ class TraceLoader(SourceFileLoader):
                 # like the bytecode, the node table is only a cache: where it cannot be written, go without
                 tmp_path = f"{pickle_path}.{os.getpid()}.tmp"
                 try:
+                    augmented = {
+                        spec: [
+                            node_id
+                            for node_id in node_ids
+                            if node_id in fresh_bookkeeping.ast_node_by_id
+                        ]
+                        for spec, node_ids in tracer.augmented_node_ids_by_spec.items()
+                    }
                     with open(tmp_path, "wb") as f:
-                        pickle.dump(fresh_bookkeeping, f)
+                        pickle.dump((fresh_bookkeeping, augmented), f)
                     os.replace(tmp_path, pickle_path)
                 except OSError:
                     # a partial file is worse than none
